@@ -78,7 +78,7 @@ Proof.
   intros HI H. unfold Inv_lib in *.
   destruct L as [md op dict props addr]; cbn [lmode lopen ldict lprops laddr] in *.
   destruct o; cbn [step_lib spec_lib] in *; genfacts;
-    unfold fetch_fn, ool_globsupport, inline_prop, with_props, with_dict, with_addr, abs_lib in *;
+    unfold fetch_fn, ool_globsupport, inline_prop, with_props, with_dict, with_addr, abs_lib in *; usablefacts;
     cbn [lmode lopen ldict lprops laddr amode aopen ataken] in *;
     brk; inv_pairs; cbn [lmode lopen ldict lprops laddr amode aopen ataken closed_exn];
     repeat split; auto; try discriminate; try congruence;
